@@ -32,7 +32,7 @@ theorem wt_bin_z {o : Bin} {a b : E} (hty : (E.bin o a b).ty = .z) (hwt : (E.bin
     pre-existing object is unchanged. -/
 theorem evalZ_correct (cst : Bool) : ∀ (e : E), e.ty = .z → e.wt = true →
     ∀ (k : Nat) (p : ZLoc) (h : Heap), p.below k → e.zbelow k →
-      Post k p h (evalTmpZ (fun i => h (.v i)) e) (evalZ cst k p e h) := by
+      Post k p h (evalTmpZ h.get e) (evalZ cst k p e h) := by
   intro e
   induction e with
   | zv i =>
@@ -40,6 +40,14 @@ theorem evalZ_correct (cst : Bool) : ∀ (e : E), e.ty = .z → e.wt = true →
     simp only [evalZ, evalTmpZ, mpz_set]
     exact Post.of_set (r := some (h (.v i)))
   | qv i => intro hty; simp [E.ty] at hty
+  | zn i =>
+    intro _ _ k p h _ _
+    simp only [evalZ, evalTmpZ, mpz_set]
+    exact Post.of_set (r := some (h (.num i)))
+  | zd i =>
+    intro _ _ k p h _ _
+    simp only [evalZ, evalTmpZ, mpz_set]
+    exact Post.of_set (r := some (h (.den i)))
   | un o a ih =>
     intro hty hwt k p h hp hb
     simp only [E.ty] at hty
@@ -48,13 +56,13 @@ theorem evalZ_correct (cst : Bool) : ∀ (e : E), e.ty = .z → e.wt = true →
     simp only [evalZ, evalTmpZ]
     cases hl : a.zleaf? with
     | some i =>
-      have := zleaf?_some hl; subst this
-      simp only [evalTmpZ, Option.bind_some, fnUnZ_spec]
+      rw [zleaf?_eval hl]
+      simp only [Option.bind_some, fnUnZ_spec]
       exact Post.of_set
     | none =>
       simp only []
       have IH := ih hty hwt.1 k p h hp hb
-      cases hr : evalTmpZ (fun i => h (.v i)) a with
+      cases hr : evalTmpZ h.get a with
       | none => rw [hr] at IH; simp only [Post] at IH; simp [IH, Post]
       | some x =>
         rw [hr] at IH
@@ -73,47 +81,46 @@ theorem evalZ_correct (cst : Bool) : ∀ (e : E), e.ty = .z → e.wt = true →
     simp only [evalZ, evalTmpZ]
     cases hla : a.zleaf? with
     | some i =>
-      have := zleaf?_some hla; subst this
+      have hbi : i.below k := zleaf?_below hla hb.1
+      rw [zleaf?_eval hla]
       cases hlb : b.zleaf? with
       | some j =>
-        have := zleaf?_some hlb; subst this
-        simp only [evalTmpZ, Option.bind_some]
+        rw [zleaf?_eval hlb]
+        simp only [Option.bind_some]
         rw [fnBinZ_ll]
         exact Post.of_set
       | none =>
-        simp only [evalTmpZ, Option.bind_some]
-        by_cases hpi : p ≠ .v i
+        simp only [Option.bind_some]
+        by_cases hpi : p ≠ i
         · simp only [hpi, ne_eq, not_false_eq_true, if_true]
           have IH := ihb htb hwb k p h hp hb.2
-          cases hr : evalTmpZ (fun i => h (.v i)) b with
+          cases hr : evalTmpZ h.get b with
           | none => rw [hr] at IH; simp only [Post] at IH; simp [IH, Post]
           | some y =>
             rw [hr] at IH
             obtain ⟨h1, e1, hy, hfr⟩ := IH
             simp only [e1, Option.bind_some]
             rw [fnBinZ_ll]
-            have hi : h1 (.v i) = h (.v i) := hfr _ (by simpa [ZLoc.below, E.zbelow] using hb.1) (Ne.symm hpi)
+            have hi : h1 i = h i := hfr _ hbi (Ne.symm hpi)
             simp only [hy, hi]
-            cases hu : binZ o (h (.v i)) y with
+            cases hu : binZ o (h i) y with
             | none => simp [Post]
             | some r =>
               refine ⟨_, rfl, by simp, fun l hl hne => ?_⟩
               try dsimp only
               rw [Heap.set_get_ne _ _ _ _ hne]; exact hfr l hl hne
-        · have hpe : p = .v i := by simpa using hpi
-          simp only [hpi, if_false]
+        · simp only [hpi, if_false]
           have IH := ihb htb hwb (k + 1) (.v k) h (by simp [ZLoc.below]) (E.zbelow_mono (by omega) _ hb.2)
-          cases hr : evalTmpZ (fun i => h (.v i)) b with
+          cases hr : evalTmpZ h.get b with
           | none => rw [hr] at IH; simp only [Post] at IH; simp [IH, Post]
           | some y =>
             rw [hr] at IH
             obtain ⟨h1, e1, hy, hfr⟩ := IH
             simp only [e1, Option.bind_some]
             rw [fnBinZ_ll]
-            have hi : h1 (.v i) = h (.v i) :=
-              hfr _ (by simp only [ZLoc.below]; simp only [E.zbelow] at hb; omega) (by intro e; injection e with e; simp only [E.zbelow] at hb; omega)
+            have hi : h1 i = h i := hfr _ (ZLoc.below_mono (by omega) hbi) (ZLoc.ne_of_below hbi)
             simp only [hy, hi]
-            cases hu : binZ o (h (.v i)) y with
+            cases hu : binZ o (h i) y with
             | none => simp [Post]
             | some r =>
               refine ⟨_, rfl, by simp, fun l hl hne => ?_⟩
@@ -123,21 +130,21 @@ theorem evalZ_correct (cst : Bool) : ∀ (e : E), e.ty = .z → e.wt = true →
     | none =>
       cases hlb : b.zleaf? with
       | some j =>
-        have := zleaf?_some hlb; subst this
-        simp only [evalTmpZ]
-        by_cases hpj : p ≠ .v j
+        have hbj : j.below k := zleaf?_below hlb hb.2
+        rw [zleaf?_eval hlb]
+        by_cases hpj : p ≠ j
         · simp only [hpj, ne_eq, not_false_eq_true, if_true]
           have IH := iha hta hwa k p h hp hb.1
-          cases hr : evalTmpZ (fun i => h (.v i)) a with
+          cases hr : evalTmpZ h.get a with
           | none => rw [hr] at IH; simp only [Post] at IH; simp [IH, Post]
           | some x =>
             rw [hr] at IH
             obtain ⟨h1, e1, hx, hfr⟩ := IH
             simp only [e1, Option.bind_some]
             rw [fnBinZ_ll]
-            have hj : h1 (.v j) = h (.v j) := hfr _ (by simpa [ZLoc.below, E.zbelow] using hb.2) (Ne.symm hpj)
+            have hj : h1 j = h j := hfr _ hbj (Ne.symm hpj)
             simp only [hx, hj]
-            cases hu : binZ o x (h (.v j)) with
+            cases hu : binZ o x (h j) with
             | none => simp [Post]
             | some r =>
               refine ⟨_, rfl, by simp, fun l hl hne => ?_⟩
@@ -145,17 +152,16 @@ theorem evalZ_correct (cst : Bool) : ∀ (e : E), e.ty = .z → e.wt = true →
               rw [Heap.set_get_ne _ _ _ _ hne]; exact hfr l hl hne
         · simp only [hpj, if_false]
           have IH := iha hta hwa (k + 1) (.v k) h (by simp [ZLoc.below]) (E.zbelow_mono (by omega) _ hb.1)
-          cases hr : evalTmpZ (fun i => h (.v i)) a with
+          cases hr : evalTmpZ h.get a with
           | none => rw [hr] at IH; simp only [Post] at IH; simp [IH, Post]
           | some x =>
             rw [hr] at IH
             obtain ⟨h1, e1, hx, hfr⟩ := IH
             simp only [e1, Option.bind_some]
             rw [fnBinZ_ll]
-            have hj : h1 (.v j) = h (.v j) :=
-              hfr _ (by simp only [ZLoc.below]; simp only [E.zbelow] at hb; omega) (by intro e; injection e with e; simp only [E.zbelow] at hb; omega)
+            have hj : h1 j = h j := hfr _ (ZLoc.below_mono (by omega) hbj) (ZLoc.ne_of_below hbj)
             simp only [hx, hj]
-            cases hu : binZ o x (h (.v j)) with
+            cases hu : binZ o x (h j) with
             | none => simp [Post]
             | some r =>
               refine ⟨_, rfl, by simp, fun l hl hne => ?_⟩
@@ -166,19 +172,19 @@ theorem evalZ_correct (cst : Bool) : ∀ (e : E), e.ty = .z → e.wt = true →
         simp only []
         -- temp2 := b ; a.eval(p) ; Op::eval(p, p, temp2)
         have IHb := ihb htb hwb (k + 1) (.v k) h (by simp [ZLoc.below]) (E.zbelow_mono (by omega) _ hb.2)
-        cases hrb : evalTmpZ (fun i => h (.v i)) b with
+        cases hrb : evalTmpZ h.get b with
         | none =>
           rw [hrb] at IHb; simp only [Post] at IHb
-          cases evalTmpZ (fun i => h (.v i)) a <;> simp [IHb, Post]
+          cases evalTmpZ h.get a <;> simp [IHb, Post]
         | some y =>
           rw [hrb] at IHb
           obtain ⟨h1, e1, hy, hfr1⟩ := IHb
           simp only [e1, Option.bind_some]
-          have hag : ∀ i, i < k → h1 (.v i) = h (.v i) := fun i hi =>
-            hfr1 _ (by simp only [ZLoc.below]; omega) (by intro e; injection e with e; omega)
+          have hag : ∀ l : ZLoc, l.below k → h1 l = h l := fun l hl =>
+            hfr1 _ (ZLoc.below_mono (by omega) hl) (ZLoc.ne_of_below hl)
           have IHa := iha hta hwa (k + 1) p h1 (ZLoc.below_mono (by omega) hp) (E.zbelow_mono (by omega) _ hb.1)
           rw [evalTmpZ_frame hag a hb.1] at IHa
-          cases hra : evalTmpZ (fun i => h (.v i)) a with
+          cases hra : evalTmpZ h.get a with
           | none => rw [hra] at IHa; simp only [Post] at IHa; simp [IHa, Post]
           | some x =>
             rw [hra] at IHa
@@ -203,8 +209,8 @@ theorem evalZ_correct (cst : Bool) : ∀ (e : E), e.ty = .z → e.wt = true →
     simp only [evalZ, evalTmpZ]
     cases hl : b.zleaf? with
     | some j =>
-      have := zleaf?_some hl; subst this
-      simp only [evalTmpZ, Option.bind_some]
+      rw [zleaf?_eval hl]
+      simp only [Option.bind_some]
       rw [fnBinZ_bl _ _ _ _ _ _ hwt.1.1]
       cases biZ c with
       | none => simp [Post]
@@ -212,7 +218,7 @@ theorem evalZ_correct (cst : Bool) : ∀ (e : E), e.ty = .z → e.wt = true →
     | none =>
       simp only []
       have IH := ih hty hwt.1.2 k p h hp hb
-      cases hr : evalTmpZ (fun i => h (.v i)) b with
+      cases hr : evalTmpZ h.get b with
       | none => rw [hr] at IH; simp only [Post] at IH; simp [IH, Post]
       | some y =>
         rw [hr] at IH
@@ -238,14 +244,14 @@ theorem evalZ_correct (cst : Bool) : ∀ (e : E), e.ty = .z → e.wt = true →
     simp only [evalZ, evalTmpZ]
     cases hl : a.zleaf? with
     | some i =>
-      have := zleaf?_some hl; subst this
-      simp only [evalTmpZ, Option.bind_some]
+      rw [zleaf?_eval hl]
+      simp only [Option.bind_some]
       rw [fnBinZ_lb _ _ _ _ _ _ hwt.1.1]
       exact Post.of_set
     | none =>
       simp only []
       have IH := ih hty hwt.1.2 k p h hp hb
-      cases hr : evalTmpZ (fun i => h (.v i)) a with
+      cases hr : evalTmpZ h.get a with
       | none => rw [hr] at IH; simp only [Post] at IH; simp [IH, Post]
       | some x =>
         rw [hr] at IH
@@ -267,13 +273,13 @@ theorem evalZ_correct (cst : Bool) : ∀ (e : E), e.ty = .z → e.wt = true →
     simp only [evalZ, evalTmpZ]
     cases hl : a.zleaf? with
     | some i =>
-      have := zleaf?_some hl; subst this
-      simp only [evalTmpZ, Option.map_some, fnShZ_spec]
+      rw [zleaf?_eval hl]
+      simp only [Option.map_some, fnShZ_spec]
       exact Post.of_set (r := some _)
     | none =>
       simp only []
       have IH := ih hty hwt.1 k p h hp hb
-      cases hr : evalTmpZ (fun i => h (.v i)) a with
+      cases hr : evalTmpZ h.get a with
       | none => rw [hr] at IH; simp only [Post] at IH; simp [IH, Post]
       | some x =>
         rw [hr] at IH
